@@ -218,3 +218,32 @@ Definition run_codec {A} (c : codec A) (bs : list Z) : list Z :=
   end.
 Definition lock_okq (lock secret : K) (index : Z) : bool :=
   match lock_of q_bls sha3_256_z enc_scalar secret index with Some l => feqb l lock | None => false end.
+
+(** the customer state machine *)
+From ZK Require Import Model.Customer.
+Definition mk_cs (t : list Z) : cstate K :=
+  match t with
+  | [cid; n; l; cb; mb] => mkCS (fq cid) (fq n) (fq l) cb mb
+  | _ => mkCS (fq 0) (fq 0) (fq 0) 0 0
+  end.
+Definition enc_cs (s : cstate K) : list Z := [v (s_cid s); v (s_nonce s); v (s_lock s); s_cb s; s_mb s].
+Definition enc_stage (st : stage K) : list Z :=
+  match st with
+  | Requested s bfc bft => 0 :: enc_cs s ++ [v bfc; v bft]
+  | Inactive s bft cs => 1 :: enc_cs s ++ [v bft] ++ vsig cs
+  | Ready s tok cs => 2 :: enc_cs s ++ vsig tok ++ vsig cs
+  | Started new old bfr bft bfc ocs => 3 :: enc_cs new ++ enc_cs old ++ [v bfr; v bft; v bfc] ++ vsig ocs
+  | Locked s bft cs => 4 :: enc_cs s ++ [v bft] ++ vsig cs
+  end.
+Definition enc_out (o : output K) : list Z :=
+  match o with
+  | ONone => [0] | ORefused => [1] | OStart n => [2; v n] | OLockMsg l b => [3; v l; v b]
+  | OError (AmountTooLarge x) => [4; x] | OError InsufficientFunds => [5]
+  end.
+Definition r_step (pk : pkey K) (st : stage K) (ev : event K) : list Z :=
+  let '(st', o) := step closeK pk st ev in enc_out o ++ enc_stage st'.
+Definition r_close (pk : pkey K) (st : stage K) (rho : Z) : list Z :=
+  match close_of st (fq rho) with
+  | Some (sg, s) => 1 :: vsig sg ++ enc_cs s ++ [b2z (check_close closeK pk sg s)]
+  | None => [0]
+  end.
